@@ -159,3 +159,86 @@ Definition c08_run (atomic : bool) (case obs : sx) : verdict :=
   end.
 
 Definition c08_entry_with (atomic : bool) (which : Z) (case obs : sx) : verdict := c08_run atomic case obs.
+
+(* ---- C09: retriable main batcher (bidx 0) + optional dead-queue batcher (bidx 1) --------------- *)
+Definition args_of_kind (k : Z) (es : list entry) : list (list Z) :=
+  flat_map (fun e => if kind_is k e then [eargs e] else []) es.
+
+Definition count_where {A} (f : A -> bool) (l : list A) : Z := Z.of_nat (length (filter f l)).
+
+(* R1: a give-up without backoff.Stop happens only with numTries > AttemptNum >= 0, after at least
+       numTries+1 failed calls of that batch *)
+Definition m_retries (c : cfg) (es : list entry) : bool :=
+  forallb (fun a => match a with
+                    | seq :: t :: _ :: flags :: _ =>
+                        (2 <=? flags) ||
+                        ((0 <=? retry c) && (retry c <? t) &&
+                         (t + 1 <=? count_where (fun r => match r with s :: _ :: ok :: _ => (s =? seq) && (ok =? 0) | _ => false end)
+                                                (args_of_kind 13 es)))
+                    | _ => false
+                    end) (args_of_kind 14 es).
+
+(* R2: a batch that went through the retry frame enters its commit section only after a successful
+       call or a give-up *)
+Fixpoint m_commit_after_retry_go (es : list entry) (settled : list Z) (entered : list Z) : bool :=
+  match es with
+  | [] => true
+  | e :: r =>
+      match ekind_raw e, eargs e with
+      | 12, seq :: _ => m_commit_after_retry_go r settled (seq :: entered)
+      | 13, seq :: _ :: ok :: _ => m_commit_after_retry_go r (if ok =? 0 then settled else seq :: settled) entered
+      | 14, seq :: _ => m_commit_after_retry_go r (seq :: settled) entered
+      | 8, seq :: _ => (negb (mem_z seq entered) || mem_z seq settled) && m_commit_after_retry_go r settled entered
+      | _, _ => m_commit_after_retry_go r settled entered
+      end
+  end.
+
+(* events (ids) of given-up batches, from the OutSaw entry of that seq (iterable events) *)
+Definition failed_ids (es : list entry) : list Z :=
+  flat_map (fun a => match a with
+                     | seq :: _ =>
+                         match find (fun o => match o with s :: _ => s =? seq | [] => false end) (args_of_kind 102 es) with
+                         | Some (_ :: ids) => ids
+                         | _ => []
+                         end
+                     | [] => []
+                     end) (args_of_kind 14 es).
+
+Fixpoint count_z (x : Z) (l : list Z) : Z := match l with [] => 0 | y :: r => (if x =? y then 1 else 0) + count_z x r end.
+
+Definition c09_monitor (c : cfg) (quiescent : bool) (es0 : list entry) : bool :=
+  let m := of_b 0 es0 in
+  let d := of_b 1 es0 in
+  let failed := failed_ids m in
+  let give_ups := args_of_kind 14 m in
+  m_no_panic es0 && m_not_stuck es0 && m_retries c m && m_commit_after_retry_go m [] [] &&
+  nodup_z (map (fun a => match a with s :: _ => s | [] => -1 end) give_ups) &&
+  (* reported once through the error callback per given-up batch *)
+  (Z.of_nat (length (args_of_kind 104 m)) =? Z.of_nat (length give_ups)) &&
+  m_sections_go m 0 false && m_sent_go m [] [] && nodup_z (ids_of_kind 100 m) &&
+  (if deadq c then
+     (* each event of a given-up batch handed exactly once to the dead queue, never committed by main *)
+     forallb (fun id => (count_z id (ids_of_kind 105 d) =? 1) && negb (mem_z id (ids_of_kind 100 m))) failed &&
+     forallb (fun id => mem_z id failed) (ids_of_kind 105 d) &&
+     m_sections_go d 0 false && m_sent_go d [] [] && nodup_z (ids_of_kind 100 d) &&
+     (negb quiescent || forallb (fun id => count_z id (ids_of_kind 100 d) =? 1) failed)
+   else
+     negb (existsb (kind_is 105) es0) &&
+     (negb quiescent || forallb (fun id => count_z id (ids_of_kind 100 m) =? 1) failed)) &&
+  (* every added event is committed exactly once by exactly one of the two at quiescence *)
+  (negb quiescent ||
+   forallb (fun id => count_z id (ids_of_kind 100 m) + count_z id (ids_of_kind 100 d) =? 1) (ids_of_kind 1 m)).
+
+Definition c09_run (atomic : bool) (case obs : sx) : verdict :=
+  match case, as_list entry_of_sx obs with
+  | SL [cs; _; _; SL [SZ mode; _]], Some es =>
+      match cfg_of_sx atomic cs with
+      | Some (c, cd) =>
+          let '(n, s, ok) := run_entries c 0 (init c) es 0 in
+          let '(n2, s2, ok2) := run_entries cd 1 (init cd) es 0 in
+          let m := SL [summary n s ok; summary n2 s2 ok2] in
+          if c09_monitor c (mode =? 0) es then (if ok && ok2 then Agree else Differ m) else Violates m
+      | None => BadCase
+      end
+  | _, _ => BadCase
+  end.
